@@ -7,26 +7,43 @@ namespace ClockBound.C11
 open ClockBound
 
 theorem start_odd (g : Nat) (h : g < 65536) : genStart g % 2 = 1 ∧ genStart g < 65536 := by
-  sorry
+  unfold genStart; split <;> omega
 
 theorem start_even (g : Nat) (h : g < 65536) (he : g % 2 = 0) : genStart g = g + 1 := by
-  sorry
+  unfold genStart; rw [if_pos he]; omega
 
 theorem start_odd_keeps (g : Nat) (ho : g % 2 = 1) : genStart g = g := by
-  sorry
+  unfold genStart; rw [if_neg (by omega)]
 
 /-- after a completed update: even, non-zero, different from before, below 2^16 -/
 theorem finish_props (g : Nat) (h : g < 65536) :
     genFinish (genStart g) % 2 = 0 ∧ genFinish (genStart g) ≠ 0 ∧ genFinish (genStart g) ≠ g ∧
     genFinish (genStart g) < 65536 := by
-  sorry
+  unfold genFinish genStart; simp only []
+  split <;> split <;> omega
 
 theorem wrap : genFinish 65535 = 2 ∧ genFinish (genStart 65534) = 2 := by
-  sorry
+  constructor <;> decide
 
 theorem model_holds (g : Nat) (h : g < 65536) :
     Holds g (genStart g) (genFinish (genStart g)) = true := by
-  sorry
+  obtain ⟨h1, h2, h3, h4⟩ := finish_props g h
+  obtain ⟨h5, h6⟩ := start_odd g h
+  have h7 : (if g % 2 = 0 then decide (genStart g = g + 1) else decide (genStart g = g)) = true := by
+    split
+    · next he => simpa using start_even g h he
+    · next he => simpa using start_odd_keeps g (by omega)
+  have h8 : (if genStart g = 65535 then decide (genFinish (genStart g) = 2)
+      else decide (genFinish (genStart g) = genStart g + 1)) = true := by
+    split
+    · next he => rw [he]; decide
+    · next he =>
+      simp only [decide_eq_true_eq]
+      unfold genFinish; simp only []
+      split <;> omega
+  unfold Holds
+  simp only [Bool.and_eq_true, decide_eq_true_eq]
+  exact ⟨⟨⟨⟨⟨⟨⟨h5, h1⟩, h2⟩, h3⟩, h4⟩, h6⟩, h7⟩, h8⟩
 
 /-- invariant over every history of completed and interrupted updates, from any start value -/
 theorem history_invariant (g0 : Nat) (h0 : g0 < 65536) (evs : List GEv) :
@@ -36,12 +53,13 @@ theorem history_invariant (g0 : Nat) (h0 : g0 < 65536) (evs : List GEv) :
     (s.stale = true → s.g % 2 = 1 ∧ s.mid = false) ∧
     (s.mid = false → s.stale = false → s.finishes > 0 → s.g % 2 = 0 ∧ s.g ≠ 0) ∧
     (s.stores > 0 → s.g ≠ 0) := by
-  sorry
+  exact GInv.run g0 h0 evs
 
 /-- each completed update changes the generation -/
 theorem update_changes (s : GState) (h : s.g < 65536) (hm : s.mid = false) :
     ((s.step .start).step .finish).g ≠ s.g := by
-  sorry
+  simp only [GState.step, hm, Bool.false_eq_true, if_false, if_true]
+  exact (finish_props s.g h).2.2.1
 
 example : (GState.run 65534 [.start, .crash, .start, .finish]).g = 2 := by decide
 
